@@ -145,5 +145,129 @@ PROPS['C10'] = {
     'technique': 'Verus postconditions == transition spec; inductive lemma over runs of non-firing events; nonlinear arithmetic lemmas',
 }
 
-NOT_CLAIMED = {}
+
+def _native(sub, quick_args, thorough_args):
+    def rp(failure, tier):
+        return replay.kreplay(sub, quick_args if tier == 'quick' else thorough_args).get('found')
+    return rp
+
+
+def _thorough_native(pid, sub, args, what):
+    def th(tier):
+        r = replay.kreplay(sub, args, timeout=3000)
+        out = {'bounded': ['%s: %d evaluations' % (what, r['evaluations'])], 'coverage': {'native_evaluations': r['evaluations']}}
+        if r.get('found'):
+            out['violations'] = [{'property': pid, 'obligation': ['native observation on the real crate'], 'failing_input': r['found']}]
+        return out
+    return th
+
+
+FS_ASSUMPTIONS = [
+    'POSIX effects of rename/link/unlink/chmod/utimensat/futimens/open/fstat/lstat/opendir/readdir/mkdir -p as written in contracts/prelude/vfs.rs '
+    '(external_body stand-ins for std::fs, filetime and std::time; each call is atomic; a failed call leaves the filesystem unchanged)',
+    'every contract is stated for the participant running alone between two of its own filesystem calls (World.solo): interference by other '
+    'participants is NOT modelled in the stubs; what carries over to concurrent runs are the protocol preconditions on private files (see DESIGN section 5)',
+    'any filesystem call may fail: an error is either explained by the state (ENOENT/ESTALE on an absent path, EEXIST on link) or counted as a hard fault',
+    'environment well-formedness (World.env_ok): timestamp granularity between 1 ns and 2 s, monotone clock, no entry dated in the future, '
+    'stored mtimes representable at the granularity, no path is both a file and a directory, no directory is named like a key',
+    'PathBuf::push(name) appends exactly one component only when `name` is a single normal component; otherwise nothing is known about the result',
+    'a directory listing returns each existing child at most once, only existing children, and all of them when no item fails; fewer than 2^64 items',
+    'the thread-local trigger countdown is the ghost field World.counter; the random source is unconstrained',
+    'Verus is run with --no-trait-conflicts (std::path::Path trips the trait-conflict checker)',
+]
+
+U4_NOTE = ('Trusted: Verus/Z3; the POSIX/std/filetime stand-ins in contracts/prelude/vfs.rs (listed one by one in evidence.trusted_base); '
+           'sequential (solo) filesystem model; extraction transformations T1-T9 checked by token-level erasure on every run. ')
+
+
+def _u4(pid, text, replayer=None, thorough=None, not_covered=(), units=('u4_rawfs',), extra_assume=()):
+    PROPS[pid] = {
+        'units': list(units),
+        'replayer': replayer,
+        'thorough': thorough,
+        'assumptions': FS_ASSUMPTIONS + list(extra_assume),
+        'not_covered': list(not_covered),
+        'level_text': text,
+        'level_note': U4_NOTE + ('Not covered: ' + '; '.join(not_covered) if not_covered else ''),
+        'technique': 'Verus contracts (ghost filesystem World threaded through functions extracted verbatim from /repo; protocol guarantees as '
+                     'preconditions of POSIX stubs; frames and exact effects as postconditions; loop invariants; lemmas)',
+    }
+
+
+STACK_NC = 'the stacked front-end (stack.rs / readonly.rs: Cache, ReadOnlyCache, get_or_update/ensure/promotion) is not under contract yet'
+SHARD_NC = 'the sharded front-end (sharded.rs get/set/put/touch, load estimates) is not under contract yet'
+CONC_NC = ('interleavings with other participants are not quantified over: the contracts are sequential; only the per-step protocol guarantees '
+           '(preconditions on private files) are schedule-independent')
+
+_u4('C07', 'Unbounded proof on the verbatim bodies of raw_cache::{collect_cached_files, apply_update, prune} and second_chance::Update::new: a completed, '
+    'fault-free prune applies exactly the Second Chance plan (clock spec over mtime as rank and atime>=mtime as read mark) computed over all regular, '
+    'non-dot files of the directory: every victim is unlinked, every reprieved file still present is re-stamped at the back with its read mark cleared, '
+    'nothing else changes (frame holds on every exit, errors included); within capacity the plan is empty; directories are never listed as records.',
+    replayer=_native('c07', [3], [4]), thorough=_thorough_native('C07', 'c07', [4], 'real prune on real directories vs executable clock twin, <=4 files x 3 mtimes x flags x capacities'),
+    not_covered=['relative order among several files reprieved in the same run is not claimed (only that each lands at the back)', SHARD_NC])
+_u4('C17', 'Unbounded proof: on every exit of prune / cleanup_temporary_directory / CacheDir::{maintain, set, put} whatever disappeared is either a regular file '
+    'directly inside the cache directory whose name does not start with a dot (an eviction victim of the plan), or a file directly inside .kismet_temp whose '
+    'mtime is strictly more than the age limit (proved to be 3600 s from the crate constant) before the run; directories are never removed; inodes of other '
+    'files are untouched. unlink is only ever called on private files, cache-namespace files or .kismet_temp children (stub precondition).',
+    replayer=_native('c17', [], []), thorough=_thorough_native('C17', 'c17', [], 'real prune / set on populated directories with dot files, subdirectories and temp files on both sides of the limit'),
+    not_covered=['that every stale temporary file IS removed (completeness of cleanup) is not claimed', SHARD_NC])
+_u4('C16', 'Unbounded proof: validate_file_name accepts exactly the names whose first byte is not one of . / \\ and that contain no /, with InvalidInput otherwise; '
+    'CacheDir::{get,touch,set,put} and the plain::Cache wrappers return that error with the World completely unchanged; for accepted names every effect is confined '
+    'to child(base, name) (write_frame / lookup frame), and rename/link/unlink/utimens/mkdir stubs require their target to be a cache-namespace path, a .kismet_temp '
+    'child, a private file or a cache directory.',
+    replayer=_native('c16', [], []), thorough=_thorough_native('C16', 'c16', [], 'name grammar x {set,put,get,touch} x {plain,sharded} in a sentinel tree'),
+    not_covered=[SHARD_NC, STACK_NC])
+_u4('C09', 'Unbounded proof for every timestamp granularity in [1 ns, 2 s] and every kernel atime behaviour (open may or may not advance atime): after a successful '
+    'CacheDir::get hit, touch (true) or put onto an existing key the entry satisfies atime >= mtime with mtime and content unchanged; after set or an inserting put '
+    'the entry carries mtime = trunc(now) (>= every other stored mtime) and atime < mtime; reads never pass Some(mtime) to futimens (stub precondition).',
+    not_covered=[SHARD_NC, STACK_NC])
+_u4('C02', 'Unbounded proof of the crash invariant at every call boundary: every POSIX stub requires and re-establishes World.valid (whatever is visible under a key name '
+    'is read-only and holds bytes supplied for that key), rename/link require the publish guarantee (private, read-only, stamped, synced if required, supplied for that key), '
+    'and every function under contract ensures valid on every exit including errors; only cache directories and .kismet_temp are ever created; stale temp files are the only '
+    'temp files ever removed.',
+    not_covered=['debris older than the limit is eventually removed (completeness)', 'temp-file creation sites live in stack.rs', SHARD_NC, STACK_NC])
+_u4('C18', 'Unbounded proof with failure enabled at every POSIX stub (any call may fail, any number of them): every operation ensures valid on every exit, Ok implies its effect '
+    '(success-means-bound, exact effects when no fault occurred), errors are explained (invalid name, absent source, or a counted hard fault) and panic-freedom '
+    '(assert!/expect/unwrap/arithmetics are proof obligations).',
+    not_covered=['temporary files are not leaked (Drop of NamedTempFile/TempPath is invisible to contracts)', SHARD_NC, STACK_NC])
+_u4('C05', 'Proof (sequential model) that absence is never an error: is_absent_file_error is exactly ENOENT-kind or ESTALE; get reports Ok(None), touch Ok(false), '
+    'ensure_file_removed / apply_update / collect_cached_files / cleanup skip what has vanished, prune on a missing directory yields Ok(0) through definitely_cleanup; '
+    'every Err of an operation implies a counted hard fault (or an invalid name / absent source).',
+    not_covered=[CONC_NC, SHARD_NC, STACK_NC])
+_u4('C06', 'Proof of termination (decreases on every loop) and of closed-form bounds on the number of own filesystem calls: get <= 3, touch <= 1, set <= 11, put <= 13 outside '
+    'maintenance; collect <= 2+2L, prune <= 2+3L, maintenance <= 4+3L for L directory items read. No lock primitive exists in the stand-ins, so any call to one would not compile (undecided), '
+    'and no retry-until loop can be given a decreases measure.',
+    not_covered=[CONC_NC, 'regenerate() terminates with probability 1 only', SHARD_NC, STACK_NC])
+_u4('C20', 'Proof that the step and open counts of get/touch/set/put outside maintenance are constants independent of the directory population (the postconditions are closed '
+    'formulas: <=3/1 open, <=1/0, <=11/0, <=13/0) and that no directory item is read (listed unchanged) unless the trigger fires.',
+    not_covered=['peak and residual open descriptors (closing is Drop, invisible to contracts)', SHARD_NC, STACK_NC])
+_u4('C15', 'Proof that lookups change nothing but the access time of the entry found (files, dirs equal; every inode equal up to atime, and only the found one), and that every '
+    'mutating stub (rename, link, unlink, chmod, utimensat with mtime, mkdir) requires its target not to be under a read-only root.',
+    not_covered=['that ReadOnlyCache / the read side of Cache only ever call get and touch is part of the stack unit', STACK_NC, SHARD_NC])
+_u4('C11', 'Proof of the exact sequential effect of plain-directory operations over the ghost filesystem: get returns a handle on the inode bound to child(base,name) or None iff absent; '
+    'set binds the key to the source inode, consumes the source, after maintenance; put inserts when absent and otherwise only marks; every disappearance is a plan victim '
+    'of a directory that was listed (cleanup_frame) or a stale temp file.',
+    not_covered=[SHARD_NC, STACK_NC, 'the lifting from per-operation effects to whole histories is the standard induction, not mechanised'])
+_u4('C01', 'Proof of the publish protocol (sequential model): a file becomes visible under a key only through rename/link whose precondition demands a private, read-only, freshly '
+    'stamped source holding bytes supplied for exactly that key; published inodes are never written or made writable (stub preconditions); a lookup returns a read-only handle on '
+    'the inode bound to exactly child(base,name).',
+    not_covered=[CONC_NC, SHARD_NC, STACK_NC])
+_u4('C19', 'Proof that CacheDir::get returns a handle with can_write == false on the entry inode, that set_read_only clears the write bits before any publication (publish guarantee) '
+    'and that chmod may add write permission only to an inode no visible name binds.',
+    not_covered=['offsets / rewinds and mode 0444 of library-populated files are in stack.rs', STACK_NC, SHARD_NC])
+_u4('C03', 'Proof that rename/link require `must_sync ==> synced` and `!writable` of the source (publish guarantee) at both publishing sites of raw_cache, that nothing in raw_cache / cache_dir '
+    'clears the synced flag, and that chmod/write stubs cannot touch a visible inode.',
+    not_covered=['where the flush happens (Cache::maybe_sync_path, finalize_tempfile, promote) is in stack.rs', STACK_NC])
+PROPS['C10']['units'] = ['u2_trigger', 'u4_rawfs']
+PROPS['C10']['assumptions'] += FS_ASSUMPTIONS
+PROPS['C10']['not_covered'] = [SHARD_NC]
+PROPS['C10']['level_text'] += (' In the filesystem unit: plain::Cache::new builds the trigger with period capacity/3; CacheDir::maybe_cleanup is exactly one trigger event and runs the whole '
+                                'maintenance iff it fires, with no filesystem call otherwise; set/put call it before their first publishing step (cleanup_frame keeps `published` unchanged).')
+PROPS['C08']['units'] = ['u1_planner']
+
+NOT_CLAIMED = {
+    'C04': 'linearizability under real interleavings needs interference in the filesystem stubs; the contracts built here are sequential (per-operation atomic steps are visible in C11/C01 evidence)',
+    'C12': None, 'C13': 'stack.rs / readonly.rs are not under contract yet', 'C14': 'stack.rs / readonly.rs are not under contract yet',
+}
+NOT_CLAIMED = {k: v for k, v in NOT_CLAIMED.items() if v}
 
